@@ -80,8 +80,11 @@ Section Doc.
   Variable appf : filt -> val -> outcome.          (* enc::decode(data, filter) *)
   Variable imgc : ref -> filt -> val -> outcome.   (* image_data's final codec + post-processing *)
 
-  (* file.rs StorageResolver::get  (fuel = bound on the nesting depth; chain = StorageResolver.chain) *)
-  Fixpoint get (fuel : nat) (chain : list ref) (ty : tytag) (r : ref) (st : state) {struct fuel}
+  (* file.rs StorageResolver::get  (fuel = bound on the nesting depth; chain = StorageResolver.chain).
+     [serve e]: is an error of kind e that this call found in the cache (it did not compute it) returned as it is?
+     The code: never (`Err(e) if computed => …; Err(_) => load again`); before fix C12-b: always.  The parameter
+     exists so that the whole class "serve cached errors of some kinds" can be refuted (Cache/Proofs.v). *)
+  Fixpoint get_gen (serve : N -> bool) (fuel : nat) (chain : list ref) (ty : tytag) (r : ref) (st : state) {struct fuel}
     : outcome * state :=
     match fuel with
     | O => (OutOfFuel, st)
@@ -92,7 +95,7 @@ Section Doc.
         let ev := fix ev (p : comp) (st : state) {struct p} : outcome * state :=
                     match p with
                     | Ret o => (o, st)
-                    | Call ty' r' k => let '(o, st1) := get f chain' ty' r' st in ev (k o) st1
+                    | Call ty' r' k => let '(o, st1) := get_gen serve f chain' ty' r' st in ev (k o) st1
                     end in
         if oc_on c then
           match lookup r (ocache st) with
@@ -106,11 +109,14 @@ Section Doc.
               if ty' =? ty then (Ok v, st)                     (* any.downcast() succeeds *)
               else ev (prog ty r) st                           (* mismatch: resolve + from_primitive again, not stored *)
           | Some (EErr e) =>
-              if fix_b c then ev (prog ty r) st                (* fixed: a cached error is not served *)
-              else (Err e, st)                                 (* C12-b: Err(PdfError::Shared{source}) *)
+              if serve e then (Err e, st)                      (* C12-b: Err(PdfError::Shared{source}) *)
+              else ev (prog ty r) st                           (* fixed: a cached error is not served *)
           end
         else ev (prog ty r) st                                 (* NoCache::get_or_compute = compute() *)
     end.
+
+  Definition get : nat -> list ref -> tytag -> ref -> state -> outcome * state :=
+    get_gen (fun _ => negb (fix_b c)).
 
   (* the computation of a load with its nested gets (the [ev] above, as a function of its own) *)
   Fixpoint eval (fuel : nat) (chain : list ref) (p : comp) (st : state) {struct p} : outcome * state :=
